@@ -89,6 +89,18 @@ def search_witness(unit, failure, seed):
 
 def search_case(case, seed, open_ids):
     js, err = _call(['search', case, str(seed), ','.join(open_ids)], timeout=600)
+    if js is None and err and ('does not build' not in err):
+        # the search process itself died or hung (stack overflow / abort / no progress inside the real code): find the input that does it by
+        # running every input in its own process; a crash or a hang of the real code on a concrete input is a witness
+        lst, lerr = _call(['list', case, str(seed), ','.join(open_ids)], timeout=120)
+        if isinstance(lst, list):
+            for n, inp in enumerate(lst):
+                j2, e2 = _call(['run', case, json.dumps(inp)], timeout=60)
+                if j2 is None:
+                    return dict(reproduced=True, case=case, input=inp, observed='the process running the real code died or hung on this input: ' + (e2 or '')[:300],
+                                expected='an answer (no crash, no hang)', tried=n + 1, replay_cmd=f"{BIN} run {case} '{json.dumps(inp)}'")
+                if not j2.get('holds', True):
+                    return dict(reproduced=True, case=case, input=inp, observed=j2['observed'], expected=j2['expected'], tried=n + 1, replay_cmd=f"{BIN} run {case} '{json.dumps(inp)}'")
     if js is None or 'error' in js:
         return dict(reproduced=False, note='witness search unavailable: ' + (err or js.get('error', '')))
     if js.get('found'):
